@@ -5,7 +5,7 @@
    the tail behind it). *)
 From Coq Require Import List NArith Bool Lia Arith.
 From Feox Require Import Gen.Constants Model.Bytes Model.Crc32c Model.Codec Proofs.CodecProofs
-                         Model.FreeSpace Proofs.FreeSpaceProofs Model.Recovery Proofs.ScanAcceptsProofs.
+                         Model.FreeSpace Proofs.FreeSpaceProofs Model.MetaJournal Model.Recovery Proofs.ScanAcceptsProofs.
 Import ListNotations.
 Local Open Scope N_scope.
 Local Transparent FEOX_BLOCK_SIZE FEOX_DATA_START_BLOCK.
@@ -213,22 +213,23 @@ Qed.
 
 (* from the state open_image starts the scan with, and with the release of the tail it does after
    the scan: every block of the data area is free exactly when no record's extent covers it *)
-Theorem quiescent_data_area_is_partitioned its st0 :
+Theorem quiescent_data_area_is_partitioned its st0 fuel :
+  (length its < fuel)%nat ->
   rs_fs st0 = mkfs [] (total * FEOX_BLOCK_SIZE) 0 0 -> rs_last_end st0 = FEOX_DATA_START_BLOCK -> rs_idx st0 = [] ->
   total * FEOX_BLOCK_SIZE < U64 ->
   Forall (item_ok version) its -> distinct_keys (recs_of its) ->
   skipn (N.to_nat FEOX_DATA_START_BLOCK) img = ilayout version FEOX_DATA_START_BLOCK its ->
   total = FEOX_DATA_START_BLOCK + isum version its -> 0 < isum version its ->
   exists st' st'',
-    scan (S (length its)) c version total img FEOX_DATA_START_BLOCK st0 jl = Ok st' /\
+    scan fuel c version total img FEOX_DATA_START_BLOCK st0 jl = Ok st' /\
     (if rs_last_end st' <? total then fs_release st' (rs_last_end st') (total - rs_last_end st') else Ok st') = Ok st'' /\
     (forall r, In r (recs_of its) -> exists s, idx_find (r_key r) (rs_idx st'') = Some (entry_of r s)) /\
     rs_count st'' = rs_count st0 + N.of_nat (length (recs_of its)) /\
-    rs_retired st'' = rs_retired st0 /\
+    rs_retired st' = rs_retired st0 /\ rs_retired st'' = rs_retired st0 /\
     (forall b, FEOX_DATA_START_BLOCK <= b < total ->
                (free (rs_fs st'') b <-> ~ covered version FEOX_DATA_START_BLOCK its b)).
 Proof.
-  intros Hfs Hle Hidx Hu Hok Hd Himg Htot Hpos.
+  intros Hfuel Hfs Hle Hidx Hu Hok Hd Himg Htot Hpos.
   assert (SI0 : SInv total FEOX_DATA_START_BLOCK st0).
   { constructor.
     - rewrite Hfs. constructor; cbn.
@@ -242,14 +243,72 @@ Proof.
     - rewrite Hle. lia.
     - rewrite Hfs. intros b Hb. exfalso. exact (freel_nil b Hb). }
   assert (Hfresh : forall r, In r (recs_of its) -> idx_find (r_key r) (rs_idx st0) = None) by (intros r _; rewrite Hidx; reflexivity).
-  destruct (scan_reads_a_quiescent_data_area its (S (length its)) FEOX_DATA_START_BLOCK st0 Hok Hd Hfresh SI0 Himg Htot (Nat.lt_succ_diag_r _))
+  destruct (scan_reads_a_quiescent_data_area its fuel FEOX_DATA_START_BLOCK st0 Hok Hd Hfresh SI0 Himg Htot Hfuel)
     as (st' & Sc & SI' & Mono & Found & _ & Cnt & Ret & Fr' & Beyond).
   destruct (gap_release total total st' SI' (N.le_refl _)) as (st'' & G & Gi & Gc & Gr & _ & _ & GF).
   exists st', st''. split; [exact Sc|]. split; [exact G|]. split; [intros r Hr; rewrite Gi; exact (Found r Hr)|].
-  split; [rewrite Gc; exact Cnt|]. split; [rewrite Gr; exact Ret|].
+  split; [rewrite Gc; exact Cnt|]. split; [exact Ret|]. split; [rewrite Gr; exact Ret|].
   intros b Hb. rewrite GF, Fr'. rewrite Hle in *. split.
   - intros [[Hf|[_ Hn]]|Hx]; [rewrite Hfs in Hf; exfalso; exact (freel_nil b Hf)|exact Hn|apply Beyond; lia].
   - intros Hn. destruct (N.lt_ge_cases b (rs_last_end st')) as [Hlt|Hge]; [left; right; split; [lia|exact Hn]|right; lia].
 Qed.
 
 End Scan.
+
+(* ---- the whole file ---- *)
+Lemma ilayout_length version its : forall sector, Forall (item_ok version) its ->
+  length (ilayout version sector its) = N.to_nat (isum version its).
+Proof.
+  induction its as [|it t IH]; intros sector H; [reflexivity|]. cbn [ilayout isum].
+  rewrite app_length, iblocks_length by exact (Forall_inv H). rewrite IH by exact (Forall_inv_tail H). lia.
+Qed.
+
+Lemma items_le_blocks version its : Forall (item_ok version) its -> (length its <= N.to_nat (isum version its))%nat.
+Proof.
+  induction its as [|it t IH]; intros H; [cbn; lia|]. cbn [length isum].
+  pose proof (isize_pos version it (Forall_inv H)). specialize (IH (Forall_inv_tail H)). lia.
+Qed.
+
+(* open_image (read-write, TTL off) on a file whose selected metadata copy decodes to a version-3
+   metadata, whose journal decodes to "clear", and whose data area is a quiescent layout: it opens,
+   leaves the file as it is, and reports exactly the records and the partition *)
+Theorem open_reads_a_quiescent_file c img m jgen jslot its :
+  c_ro c = false -> c_now c = None ->
+  (17 <= length img)%nat ->
+  let total := N.of_nat (length img) in
+  let mb := if select_meta (nth_block img 0) (nth_block img (N.to_nat FEOX_METADATA_BACKUP_BLOCK))
+            then nth_block img (N.to_nat FEOX_METADATA_BACKUP_BLOCK) else nth_block img 0 in
+  list_eqb (firstn 8 mb) SIGNATURE = true -> decode_meta mb = Some m -> has_token (m_version m) = true ->
+  decode_journal (slot_bytes img 0) (slot_bytes img 1) total = Some (jgen, jslot, []) ->
+  total * FEOX_BLOCK_SIZE < U64 ->
+  Forall (item_ok (m_version m)) its -> distinct_keys (recs_of its) ->
+  skipn (N.to_nat FEOX_DATA_START_BLOCK) img = ilayout (m_version m) FEOX_DATA_START_BLOCK its ->
+  exists o,
+    open_image c img = (Ok o, img) /\
+    o_version o = m_version m /\ o_img o = img /\
+    (forall r, In r (recs_of its) -> exists s, idx_find (r_key r) (o_idx o) = Some (entry_of (m_version m) r s)) /\
+    o_count o = N.of_nat (length (recs_of its)) /\
+    (forall b, FEOX_DATA_START_BLOCK <= b < total ->
+               (free (o_fs o) b <-> ~ covered (m_version m) FEOX_DATA_START_BLOCK its b)).
+Proof.
+  intros Hrw Hnow Hlen total mb Hsig Hdec Htok Hj Hu Hok Hd Himg.
+  assert (Hlay : length (ilayout (m_version m) FEOX_DATA_START_BLOCK its) = N.to_nat (isum (m_version m) its)) by (apply ilayout_length; exact Hok).
+  assert (Htot : total = FEOX_DATA_START_BLOCK + isum (m_version m) its).
+  { pose proof (f_equal (@length block) Himg) as L. rewrite skipn_length, Hlay in L. unfold total. unfold FEOX_DATA_START_BLOCK in *. lia. }
+  assert (Hpos : 0 < isum (m_version m) its) by (unfold total, FEOX_DATA_START_BLOCK in Htot; lia).
+  assert (Hmax : total <= U64MAX) by (unfold U64, U64MAX, FEOX_BLOCK_SIZE in *; lia).
+  assert (Hfuel : (length its < S (length img))%nat).
+  { pose proof (items_le_blocks _ _ Hok). unfold total, FEOX_DATA_START_BLOCK in Htot. lia. }
+  set (st0 := mkrs [] (mkfs [] (total * FEOX_BLOCK_SIZE) 0 0) 0 0 0 [] FEOX_DATA_START_BLOCK 0).
+  destruct (quiescent_data_area_is_partitioned c (m_version m) total [] img Hrw Htok Hmax its st0 (S (length img)) Hfuel
+              eq_refl eq_refl eq_refl Hu Hok Hd Himg Htot Hpos)
+    as (st' & st'' & Sc & Rel & Found & Cnt & Ret' & Ret & Part).
+  unfold open_image. fold total.
+  destruct (Nat.ltb_spec (length img) 17); [lia|].
+  fold mb. rewrite Hsig. cbn [negb]. rewrite Hdec, Hj. rewrite Hrw. cbn [replay].
+  fold st0. rewrite Sc. cbn [bind]. rewrite Hnow. cbn [bind].
+  cbn [st0 rs_retired] in Ret'. rewrite Ret'. cbn [length retire_two Nat.sub skipn firstn retire_extents negb].
+  rewrite Rel.
+  eexists. split; [reflexivity|]. cbn [o_version o_img o_idx o_count o_fs].
+  split; [reflexivity|]. split; [reflexivity|]. split; [exact Found|]. split; [rewrite Cnt; reflexivity|exact Part].
+Qed.
